@@ -198,6 +198,12 @@ Written(j, kw, dflt) == IF LastIn(j, kw) = 0 THEN dflt ELSE lines[LastIn(j, kw)]
 Sequential == \E i \in Idx("MODE") : lines[i].s[1] = "SEQ"
 
 RejectsNSC   == done => (out.reject <=> ~Sequential)
+\* Finish is total on well-formed sequential files: every part of the prescription is there
+FinishTotal  == done /\ Sequential =>
+                  /\ ~out.reject /\ Len(out.surf) >= 1 /\ out.ap # <<>> /\ Len(out.wl) >= 1 /\ out.fields # {}
+                  /\ \A j \in 1..Len(out.surf) : out.surf[j].R # 0 /\ out.surf[j].med.kind \in {"air", "cat", "model"}
+\* the grids are exact: every curvature written divides U*U (so R is the exact reciprocal)
+GridExact    == \A i \in Idx("CURV") : LET c == lines[i].a[1] IN c = 0 \/ (U * U) % (IF c < 0 THEN -c ELSE c) = 0
 SurfaceCount == done /\ ~out.reject => Len(out.surf) = NSurfLines /\ NSurfLines = g.target
 RadiusLaw    == done /\ ~out.reject =>
                   \A j \in 1..NSurfLines :
